@@ -23,6 +23,7 @@ import (
 	"go/parser"
 	"go/printer"
 	"go/token"
+	"os"
 	"path/filepath"
 	"sort"
 	"strings"
@@ -382,7 +383,116 @@ func produceConsts(repo string) ([]byte, []string) {
 	return gen.EmitConsts("", cs), nil
 }
 
+// ---------- commit sites ----------
+//
+// Every call of a cache / overlay / store commit (`.Commit()`, `.CommitTo()`, `.BatchCommit()`,
+// `.CommitToCacheDB()`) in the code that runs inside or around a transaction's execution, listed
+// with file, enclosing function and printed call. Two lists:
+//   commit_sites_exec    : code that runs DURING an execution (interpreters, native contracts,
+//                          the smart-contract runtime). The model lets an execution write only
+//                          into the transaction cache, so the only admissible member is
+//                          StateDB.CommitToCacheDB (which stays inside that cache);
+//   commit_sites_handler : the transaction handlers and the cache layers themselves - pinned
+//                          literally in Props/C05.v (each one is a modelled site or classified there).
+// A new commit in mid-transaction changes these lists and the theorems about them stop checking.
+
+var execDirs = []string{"smartcontract/service/native", "smartcontract/service/neovm", "smartcontract/service/wasmvm",
+	"smartcontract/service/evm", "smartcontract/context", "smartcontract/event", "smartcontract/states", "vm/neovm", "vm/evm"}
+var execFiles = []string{"smartcontract/smart_contract.go"}
+
+// handler-level files (the named ones inside execDirs are moved here)
+var handlerFiles = []string{"core/store/ledgerstore/tx_handler.go", "smartcontract/storage/statedb.go", "smartcontract/storage/cachedb.go",
+	"smartcontract/service/evm/state_processor.go", "vm/evm/runtime/contract.go"}
+
+var commitNames = map[string]bool{"Commit": true, "CommitTo": true, "BatchCommit": true, "CommitToCacheDB": true}
+
+func commitCalls(repo, rel string) ([]string, error) {
+	fset := token.NewFileSet()
+	f, err := parser.ParseFile(fset, filepath.Join(repo, rel), nil, 0)
+	if err != nil {
+		return nil, err
+	}
+	var out []string
+	for _, d := range f.Decls {
+		fd, ok := d.(*ast.FuncDecl)
+		if !ok || fd.Body == nil {
+			continue
+		}
+		ast.Inspect(fd.Body, func(n ast.Node) bool {
+			if ce, ok := n.(*ast.CallExpr); ok {
+				if se, ok := ce.Fun.(*ast.SelectorExpr); ok && commitNames[se.Sel.Name] {
+					out = append(out, fmt.Sprintf("(%s, %s, %s, %s)", hx.CoqStr(rel), hx.CoqStr(fd.Name.Name), hx.CoqStr(se.Sel.Name), hx.CoqStr(pr(fset, ce))))
+				}
+			}
+			return true
+		})
+	}
+	return out, nil
+}
+
+func produceCommitSites(repo string) ([]byte, []string) {
+	var errs []string
+	isHandler := map[string]bool{}
+	for _, f := range handlerFiles {
+		isHandler[f] = true
+	}
+	var exec, handler []string
+	add := func(rel string) {
+		calls, err := commitCalls(repo, rel)
+		if err != nil {
+			errs = append(errs, err.Error())
+			return
+		}
+		if isHandler[rel] {
+			handler = append(handler, calls...)
+		} else {
+			exec = append(exec, calls...)
+		}
+	}
+	var files []string
+	for _, d := range execDirs {
+		filepath.Walk(filepath.Join(repo, d), func(p string, info os.FileInfo, err error) error {
+			if err == nil && !info.IsDir() && strings.HasSuffix(p, ".go") && !strings.HasSuffix(p, "_test.go") && !strings.Contains(filepath.Base(p), "verif_hooks") {
+				rel, _ := filepath.Rel(repo, p)
+				files = append(files, rel)
+			}
+			return nil
+		})
+	}
+	files = append(files, execFiles...)
+	for _, f := range handlerFiles {
+		dup := false
+		for _, g := range files {
+			dup = dup || g == f
+		}
+		if !dup {
+			files = append(files, f)
+		}
+	}
+	sort.Strings(files)
+	if len(files) < 50 {
+		errs = append(errs, fmt.Sprintf("commit sites: only %d source files found", len(files)))
+	}
+	for _, f := range files {
+		add(f)
+	}
+	var b bytes.Buffer
+	fmt.Fprintf(&b, "(* GENERATED by harness/drivers/c05 from the current source (go/ast) on every run. Do not edit.\n   (file, enclosing function, method, printed call) of every Commit / CommitTo / BatchCommit / CommitToCacheDB call;\n   %d files scanned. *)\n", len(files))
+	fmt.Fprintf(&b, "From Coq Require Import List String.\nImport ListNotations.\nOpen Scope string_scope.\n\n")
+	if len(errs) > 0 {
+		fmt.Fprintf(&b, "Definition translator_broken_commit_sites : unit := tt.\n")
+		return b.Bytes(), errs
+	}
+	emit := func(name string, l []string) {
+		fmt.Fprintf(&b, "Definition %s : list (string * string * string * string) := [\n  %s\n].\n\n", name, strings.Join(l, ";\n  "))
+	}
+	emit("commit_sites_exec", exec)
+	emit("commit_sites_handler", handler)
+	return b.Bytes(), nil
+}
+
 func init() {
+	gen.RegisterFile("FeeCommitSites.v", produceCommitSites)
 	gen.RegisterFile("FeeConsts.v", produceConsts)
 	gen.RegisterFile("FeeFormulas.v", produceFormulas)
 }
